@@ -79,6 +79,24 @@ def run_case(case):
     w = work.weights_of(out.solver, p.spec)
     D = R.internal_dense(p.P, w) if p.cfg["control"] == "Exact" else None
     viol, stats = work.check_stepsize(p, out, D)
+    if case["gseed"][-1] % 4 == 0 and out.result is not None and not case.get("fault"):
+        # history: the same solver object is used again; the second solve is judged on its own
+        out2 = mon.Outcome()
+        out2.solver = out.solver
+        out2.result = out2.exc = out2.construct_exc = None
+        try:
+            out2.result = out.solver.solve(p.x0, p.y0)
+        except Exception as ex:
+            out2.exc = ex
+        out2.trace = out.solver.trace
+        v2, s2 = work.check_stepsize(p, out2, D)
+        for v in v2:
+            v["what"] = "second solve on the same solver object: " + v["what"]
+            v["key"]["history"] = "resolve"
+        viol += v2
+        res["ctr"]["resolves_checked"] = 1
+        for k in ("pairs", "rejections", "failures", "exact_accepts_checked"):
+            stats[k] += s2[k]
     res["viol"] = viol[:4]
     fired = bool((fault and fault.fired) or (out.factory and out.factory.fired))
     res["ctr"].update({"trial_pairs": stats["pairs"], "rejections": stats["rejections"], "failures": stats["failures"],
@@ -105,7 +123,7 @@ def finalize(agg, tier):
                 "k-th factorisation/solve failing, all evaluations outside a ball around x0 non-finite); non-trivial = the "
                 "run contained at least one rejected or failed trial; distinct by spec seed",
         "floors": {"trial_pairs": 5000, "rejections": 300, "failures": 50, "lamb_max_aborts": 20,
-                   "exact_accepts_checked": 500, "faults_fired": 100},
+                   "exact_accepts_checked": 500, "faults_fired": 100, "resolves_checked": 40},
         "assumptions": ["exact-control residual bound newton_tol + sqrt(n)*1e-8 (activity threshold of the projection) "
                         "+ 1e-12 x magnitude"],
     }
